@@ -35,7 +35,7 @@ not_applicable = [
 hook_commits = [l.strip() for l in open(os.path.join(ROOT, 'tools', 'hook_commits.txt')) if l.strip()]
 manifest = {
     "version": 1,
-    "setup_cmd": "cd /verif/harness && RUSTUP_TOOLCHAIN=1.88.0 CARGO_NET_OFFLINE=true cargo build --release --offline",
+    "setup_cmd": "cd /verif/harness && RUSTUP_TOOLCHAIN=1.88.0 CARGO_NET_OFFLINE=true cargo build --release --offline && (CARGO_NET_OFFLINE=true cargo +nightly fuzz build --fuzz-dir /verif/fuzz >/dev/null 2>&1 || echo 'note: libFuzzer targets not built (only the thorough tier of C08/C09 uses them; it records their absence)')",
     "hooks": {
         "guard": "cargo feature `verif` of crate chitchat (off by default)",
         "enable": "the harness crate /verif/harness depends on chitchat by path with features = [\"verif\"]; ./check rebuilds it from /repo's working tree on every run",
@@ -46,6 +46,8 @@ manifest = {
     "engines": [
         {"name": "vcheck", "path": "/verif/harness", "serves_properties": sorted(CLAIMED.keys()),
          "kind_free_text": "Rust binary: sharded proptest runners + exhaustive small-scope enumerators over real chitchat nodes on a paused tokio clock, independent wire codec, reference models; shrunk failures become JSON replay files"},
+        {"name": "libfuzzer-targets", "path": "/verif/fuzz", "serves_properties": ["C08", "C09"],
+         "kind_free_text": "cargo-fuzz crate: wire_decode (differential decoder), wire_roundtrip (structured), hostile_process (datagram sequences on a fresh node); oracles live in harness/src/fuzzers.rs so corpus files and crash artifacts replay in-process"},
     ],
     "checks": checks,
     "not_applicable": not_applicable,
